@@ -60,8 +60,61 @@ def _ctor(call: ast.Call, method: str) -> Tuple[str, ast.Call]:
     raise TranslateError("build_repo: append argument not understood: " + _src(a))
 
 
+
+def _norm_text(src: str) -> str:
+    """an expected shape, normalised like the source it is compared with (no annotations / docstrings / log lines)"""
+    return "\n".join(_src(st) for st in T.parse_src(src).body)
+
+
+def _is_getlogger_log(st: ast.AST) -> bool:
+    """`logging.getLogger("name").debug(...)` with effect-free arguments (translate.normalize only knows named loggers)"""
+    if not (isinstance(st, ast.Expr) and isinstance(st.value, ast.Call) and isinstance(st.value.func, ast.Attribute)):
+        return False
+    f = st.value.func
+    if f.attr not in T.LOG_METHODS or not (isinstance(f.value, ast.Call) and _src(f.value.func) == "logging.getLogger"):
+        return False
+    if not all(isinstance(a, ast.Constant) for a in f.value.args) or f.value.keywords:
+        return False
+    return all(T._pure(a) for a in st.value.args) and all(T._pure(k.value) for k in st.value.keywords)
+
+
+def _extra_optional_params(fn: ast.FunctionDef, known: List[str]) -> List[str]:
+    """parameters are read by name: the modelled ones must come first and unchanged; further parameters are tolerated
+    if they have a default and the function only hands them on (`f(..., p=p)`)"""
+    pos = [a.arg for a in fn.args.args]
+    if pos[:len(known)] != known or fn.args.vararg or fn.args.kwarg or fn.args.posonlyargs:
+        raise TranslateError(f"{fn.name}: parameters changed: {pos}")
+    extra = pos[len(known):]
+    with_default = set(pos[len(pos) - len(fn.args.defaults):]) if fn.args.defaults else set()
+    for a, d in zip(fn.args.kwonlyargs, fn.args.kw_defaults):
+        extra.append(a.arg)
+        if d is not None:
+            with_default.add(a.arg)
+    if any(e not in with_default for e in extra):
+        raise TranslateError(f"{fn.name}: new parameter without a default: {extra}")
+    if extra:
+        for n in ast.walk(fn):
+            if isinstance(n, ast.Call):
+                n.keywords = [k for k in n.keywords if not (k.arg in extra and isinstance(k.value, ast.Name) and k.value.id == k.arg)]
+        for st in fn.body:
+            for n in ast.walk(st):
+                if isinstance(n, ast.Name) and n.id in extra:
+                    raise TranslateError(f"{fn.name}: new parameter {n.id} is used by the modelled statements")
+    return extra
+
+
+BUILD_REPO_PARAMS = ["solutions", "upgrade_packages", "sources", "excluded_sources", "find_links", "index_urls", "wheeldir",
+                     "extra_index_urls", "no_index", "allow_prerelease"]
+# the repositories are wrapped in a MultiRepository only when there is more than one
+BUILD_REPO_TAILS = [
+    "if len(repos) > 1:\n    repo = MultiRepository(*repos)\nelse:\n    repo = repos[0]\nreturn repo",
+    "if len(repos) == 1:\n    return repos[0]\nreturn MultiRepository(*repos)",
+    "if len(repos) > 1:\n    return MultiRepository(*repos)\nreturn repos[0]",
+]
+
 def read_build_repo() -> Tuple[List[str], List[str]]:
     fn = T.func(T.parse(CMDLINE), "build_repo")
+    _extra_optional_params(fn, BUILD_REPO_PARAMS)
     pooled: List[str] = []
     for method, call, guards in _calls_on(fn, "pooled_repos"):
         what, c = _ctor(call, method)
@@ -123,9 +176,13 @@ def read_build_repo() -> Tuple[List[str], List[str]]:
     first_repos = min(c.lineno for _, c, _ in calls)
     if last_pooled > first_repos:
         raise TranslateError("build_repo: pooled_repos modified after repos is being assembled")
-    tail = _src(fn.body[-2]) + "\n" + _src(fn.body[-1])
-    want = "if len(repos) > 1:\n    repo: Repository = MultiRepository(*repos)\nelse:\n    repo = repos[0]\nreturn repo"
-    if tail != want:
+    # what follows `if not repos: raise ValueError(...)` (found by content, not by position; log lines ignored)
+    guard = [i for i, st in enumerate(fn.body) if isinstance(st, ast.If) and _src(st.test) == "not repos"
+             and len(st.body) == 1 and isinstance(st.body[0], ast.Raise) and _src(st.body[0].exc).startswith("ValueError(") and not st.orelse]
+    if len(guard) != 1:
+        raise TranslateError("build_repo: `if not repos: raise ValueError` not found")
+    tail = "\n".join(_src(st) for st in fn.body[guard[0] + 1:] if not _is_getlogger_log(st))
+    if tail not in [_norm_text(t) for t in BUILD_REPO_TAILS]:
         raise TranslateError("build_repo: final MultiRepository construction changed")
     return pooled, stack
 
@@ -160,7 +217,10 @@ def read_multi() -> None:
     mod = T.parse(MULTI)
     multi = T.klass(mod, "MultiRepository")
     gd = [n for n in multi.body if isinstance(n, ast.FunctionDef) and n.name == "get_dist"]
-    if len(gd) != 1 or _body_text(gd[0]) != MULTI_GET_DIST:
+    if len(gd) != 1:
+        raise TranslateError("MultiRepository.get_dist not found")
+    _extra_optional_params(gd[0], ["self", "req", "allow_source_dist", "max_downgrade"])
+    if _body_text(gd[0]) != _norm_text(MULTI_GET_DIST):
         raise TranslateError("MultiRepository.get_dist changed")
     pooled = T.klass(mod, "PooledCandidateMultiRepository")
     if [_src(b) for b in pooled.bases] != ["MultiRepository"]:
@@ -172,7 +232,7 @@ def read_multi() -> None:
     if methods != ["get_candidates", "resolve_candidate"]:
         raise TranslateError(f"PooledCandidateMultiRepository methods changed: {methods}")
     gc = [n for n in pooled.body if isinstance(n, ast.FunctionDef) and n.name == "get_candidates"][0]
-    if _body_text(gc) != POOLED_GET_CANDIDATES:
+    if _body_text(gc) != _norm_text(POOLED_GET_CANDIDATES):
         raise TranslateError("PooledCandidateMultiRepository.get_candidates changed")
 
 
@@ -243,7 +303,13 @@ def read_compile_main_merge() -> None:
         if isinstance(n, ast.Call) and isinstance(n.func, ast.Attribute) and _src(n.func.value) in ("args.index_urls", "args.extra_index_urls"):
             raise TranslateError("compile_main: in-place mutation of the index URL lists: " + _src(n))
     calls = [n for n in ast.walk(fn) if isinstance(n, ast.Call) and _src(n.func) == "build_repo"]
-    if len(calls) != 1 or _src(calls[0]) != BUILD_REPO_CALL:
+    if len(calls) != 1:
+        raise TranslateError("compile_main: build_repo call not found")
+    want_call = T.parse_src(BUILD_REPO_CALL).body[0].value
+    extra = _extra_optional_params(T.func(T.parse(CMDLINE), "build_repo"), BUILD_REPO_PARAMS)
+    got_kw = {k.arg: _src(k.value) for k in calls[0].keywords if k.arg not in extra}
+    if ([_src(a) for a in calls[0].args] != [_src(a) for a in want_call.args]
+            or got_kw != {k.arg: _src(k.value) for k in want_call.keywords} or any(k.arg is None for k in calls[0].keywords)):
         raise TranslateError("compile_main: build_repo call changed")
     if calls[0].lineno < guards[0].lineno:
         raise TranslateError("compile_main: build_repo is called before the merge")
